@@ -1,6 +1,6 @@
 (** C04 — stop is a barrier, last drop drains, and termination is announced after stopped().
     Statements only; proofs live in Inv/. *)
-From Hannibal Require Import Model.Sys Inv.C04 Inv.C03 Chk.C03 Chk.C04.
+From Hannibal Require Import Model.Sys Inv.C04 Inv.C03 Chk.C03 Chk.C04 Inv.SysOk Inv.C01b Inv.C04b.
 
 (** On every execution the model accepts, every await of an address (by value or through &mut)
     and every halt resolves only after the addressed actor's task has ended, with Ok exactly when
@@ -42,3 +42,16 @@ Example C04_acceptor_rejects :
   /\ chk_C04 [EvSpawn 0 {| sc_bound := None; sc_timeout := None; sc_failto := false; sc_strat := RestartOnly; sc_stream := false; sc_entry := 0; sc_ty := 0 |}; EvHandle 0 0 KAddr;
               EvOp 1 0 0 OAwait 0 0; EvRet 1 ROk] = false.
 Proof. vm_compute. auto. Qed.
+
+(** Stop is a barrier - over whole executions. If, in a state reachable by any trace, a message
+    is queued behind a stop request at an actor, then on no continuation, however long, is the
+    handler of that message ever entered: once the stop request reaches the head of the mailbox
+    the loop leaves for good (finished / stopped / exit), and a dropped mailbox handles nothing. *)
+Theorem C04_nothing_queued_behind_a_stop_is_handled :
+  forall tr1 tr2 s1 s2 s3 a x1 o1 o2,
+  run init tr1 = Acc s1 -> actors s1 a = Some x1 -> behind_stop (a_queue x1) o1 o2 ->
+  run s1 tr2 = Acc s2 -> step s2 (EvHBegin a o2) = Acc s3 -> False.
+Proof.
+  intros tr1 tr2 s1 s2 s3 a x1 o1 o2 H. apply stop_barrier_run. exact (sys_ok_run _ _ _ sys_ok_init H).
+Qed.
+Print Assumptions C04_nothing_queued_behind_a_stop_is_handled.
